@@ -1,5 +1,6 @@
 import DaeVerif.C03.Layout
 import DaeVerif.C03.RouteOf
+import DaeVerif.C03.Janitor
 import DaeVerif.Common.Proto
 /-!
 Line-protocol driver for C03.  The SAME op file is read by the native C driver
@@ -215,6 +216,15 @@ def handle (st : St) (line : String) : St × String :=
     | some l4, some sip, some sport, some dip, some dport, some age =>
       (st, rrStr (retrieve st.w ⟨sip, dip, sport, dport, l4⟩ (st.w.now + age)))
     | _, _, _, _, _, _ => (st, "bad-op")
+  | ["jan", aggr, age] =>
+    -- which entries one janitor round (conn-state + hand-off) would delete `age` ns from now; nothing is deleted
+    match aggr.toNat?, age.toNat? with
+    | some aggr, some age =>
+      let t := st.w.now + age
+      let dels := ((st.w.conn.filter (janitorDeletesConn (aggr != 0) t)).map fun p => hx (encKey p.1)).mergeSort (fun a b => a ≤ b)
+      let hdels := ((st.w.handoff.filter (janitorDeletesHandoff t)).map fun p => hx (encKey p.1)).mergeSort (fun a b => a ≤ b)
+      (st, s!"del=[{";".intercalate dels}] hdel=[{";".intercalate hdels}]")
+    | _, _ => (st, "bad-op")
   | ["hoexp", now, last] =>
     match now.toNat?, last.toNat? with
     | some now, some last => (st, s!"expired={boolStr (handoffExpired now last)}")
